@@ -56,7 +56,7 @@ func init() { Register(c01{}) }
 func (c01) ID() string       { return "C01" }
 func (c01) New() interface{} { return &C01Case{} }
 func (c01) Rule() string {
-	return "each run: a start container (alignment or sequence set; empty, one row, one column, mixed case and colliding names included; one of the three duplicate-name policies) and a history of 1-12 operations out of 27 kinds (add with right / wrong length and fresh / existing name, append, concat, rename, rename-regexp, clean-names, trim-names, trim-names-auto, append-identifier, sort, shuffle, filter-length, deduplicate, remove-gap-seqs, translate, clone, sample, clear, sub-align, unalign, replace, case changes, set-policy, remove-gap-sites, trim-sequences) with arguments resolved against the current content; after every operation all access paths are compared with each other and with the list model (operations whose documentation does not fix the result are only held to the invariants, after which the model is re-read from the container). Distinct = distinct sequence of operation kinds + start shape; non-trivial = at least 2 operations that change the container."
+	return "each run: a start container (alignment or sequence set; empty, one row, one column, mixed case and colliding names included; one of the three duplicate-name policies) and a history of 1-12 operations out of 30 kinds (add with right / wrong length and fresh / existing name, append, concat, rename, rename-regexp, clean-names, trim-names, trim-names-auto, append-identifier, sort, shuffle, filter-length, deduplicate, remove-gap-seqs, translate, clone, sample, clear, sub-align, unalign, replace, case changes, set-policy, remove-gap-sites, trim-sequences) with arguments resolved against the current content; after every operation all access paths are compared with each other and with the list model (operations whose documentation does not fix the result are only held to the invariants, after which the model is re-read from the container). Distinct = distinct sequence of operation kinds + start shape; non-trivial = at least 2 operations that change the container."
 }
 
 var c01Names = []string{"a", "b", "c", "A", "seq1", "seq2", "a_0001", "s:1", " x", "t.1|u", "Seq_10", "zz"}
@@ -71,7 +71,7 @@ func c01Seq(r *Rand, l int) string {
 
 var c01Kinds = []string{"add", "add", "add", "append", "concat", "rename", "rename", "rename-regexp", "clean-names", "trim-names", "trim-names-auto", "append-identifier",
 	"sort", "sort", "shuffle", "filter-length", "deduplicate", "remove-gap-seqs", "translate", "clone", "sample", "clear", "sub-align", "unalign", "replace", "to-upper", "to-lower", "set-policy",
-	"remove-gap-sites", "trim-sequences"}
+	"remove-gap-sites", "trim-sequences", "remove-majority-sites", "remove-character-sites", "compress"}
 
 func (c01) Gen(rs uint64, tier string, race bool) interface{} {
 	r := NewRand(rs)
@@ -80,9 +80,16 @@ func (c01) Gen(rs uint64, tier string, race bool) interface{} {
 	c.Policy = r.Pick(align.IGNORE_NONE, align.IGNORE_NONE, align.IGNORE_NAME, align.IGNORE_SEQUENCE)
 	n := r.Pick(0, 1, 1, 2, 3, 3, 4, 5, 6)
 	l := r.Pick(1, 2, 3, 4, 6, 6, 8, 9)
+	big := r.Chance(0.04)
+	if big {
+		n = r.Range(13, 18) // beyond the sizes below which library sorts are stable
+	}
 	perm := r.Perm(len(c01Names))
 	for i := 0; i < n; i++ {
-		nm := c01Names[perm[i]]
+		nm := c01Names[perm[i%len(perm)]]
+		if i >= len(perm) {
+			nm = fmt.Sprintf("n%02d", n-i)
+		}
 		if r.Chance(0.1) && i > 0 {
 			nm = c.Start[r.Intn(i)].Name // duplicate-name input: resolved by the policy
 		}
@@ -94,7 +101,11 @@ func (c01) Gen(rs uint64, tier string, race bool) interface{} {
 	}
 	nops := r.Pick(1, 2, 2, 3, 3, 4, 5, 6, 8, 12)
 	for k := 0; k < nops; k++ {
-		op := HOp{Kind: c01Kinds[r.Intn(len(c01Kinds))], I: r.Intn(64), J: r.Intn(64), N: r.Intn(8), Flag: r.Bool(), Seed: int64(r.U64() >> 1)}
+		kind := c01Kinds[r.Intn(len(c01Kinds))]
+		if big && r.Chance(0.6) {
+			kind = r.PickS("rename", "rename", "sort", "shuffle", "rename-regexp", "add")
+		}
+		op := HOp{Kind: kind, I: r.Intn(64), J: r.Intn(64), N: r.Intn(8), Flag: r.Bool(), Seed: int64(r.U64() >> 1)}
 		switch op.Kind {
 		case "add":
 			op.Name = c01Names[r.Intn(len(c01Names))]
@@ -114,7 +125,7 @@ func (c01) Gen(rs uint64, tier string, race bool) interface{} {
 				if r.Chance(0.5) {
 					nw = fmt.Sprintf("r%d", r.Intn(5))
 				}
-				op.Pairs = append(op.Pairs, fmt.Sprintf("#%d", r.Intn(8)), nw)
+				op.Pairs = append(op.Pairs, fmt.Sprintf("#%d", r.Intn(20)), nw)
 			}
 		case "rename-regexp":
 			k := r.Intn(5)
@@ -276,7 +287,19 @@ func accessPaths(sb align.SeqBag, rows []HRow) string {
 			return fmt.Sprintf("GetSequenceCharById(%d) differs from row %d", i, i)
 		}
 		if count[r.Name] != 1 {
-			continue // a name the caller gave to two rows: by-name lookup is not defined
+			// a name the caller gave to two rows: which of them a by-name lookup finds is
+			// not defined, but the by-name paths must find the same one
+			if k := sb.GetSequenceIdByName(r.Name); k >= 0 && k < n {
+				if s, ok := sb.GetSequence(r.Name); !ok || s != rows[k].Seq {
+					return fmt.Sprintf("GetSequenceIdByName(%q) = %d (holding %q) but GetSequence(%q) = (%q, %v): two by-name lookups find different rows", r.Name, k, rows[k].Seq, r.Name, s, ok)
+				}
+				if so, ok := sb.GetSequenceByName(r.Name); !ok || so == nil || so.Sequence() != rows[k].Seq {
+					return fmt.Sprintf("GetSequenceIdByName(%q) = %d but GetSequenceByName(%q) returns another row", r.Name, k, r.Name)
+				}
+			} else {
+				return fmt.Sprintf("GetSequenceIdByName(%q) = %d although row %d has that name", r.Name, k, i)
+			}
+			continue
 		}
 		if s, ok := sb.GetSequence(r.Name); !ok || s != r.Seq {
 			return fmt.Sprintf("GetSequence(%q) = (%q, %v), row %d holds %q", r.Name, s, ok, i, r.Seq)
@@ -705,6 +728,27 @@ func (c01) Run(ctx *Ctx, ci interface{}) (o Outcome) {
 			}
 			modelled = false
 			al.TrimSequences(op.N, op.Flag)
+		case "remove-majority-sites":
+			if !isAl || n == 0 {
+				applied = false
+				break
+			}
+			modelled = false
+			al.RemoveMajorityCharacterSites([]float64{0, 0.5, 0.75, 1}[op.N%4], op.Flag, op.I%2 == 0, op.J%2 == 0)
+		case "remove-character-sites":
+			if !isAl || n == 0 {
+				applied = false
+				break
+			}
+			modelled = false
+			al.RemoveCharacterSites([]uint8{"ACGTN-"[op.I%6]}, []float64{0, 0.5, 0.75, 1}[op.N%4], op.Flag, op.J%2 == 0, false, false, op.J%3 == 0)
+		case "compress":
+			if !isAl || n == 0 {
+				applied = false
+				break
+			}
+			modelled = false
+			al.Compress()
 		case "translate":
 			if cont.Alphabet() != align.NUCLEOTIDS || n == 0 {
 				applied = false
